@@ -379,8 +379,17 @@ fn lane_variant() -> World {
     World::new(8, vec![(0, 1), (1, 2), (2, 7), (0, 3), (3, 4), (4, 5), (5, 7), (4, 6), (6, 7)], vec![3.0, 3.25, 2.75, 1.0, 1.0, 1.0, 8.25, 1.5, 8.5])
 }
 
+/// shortest 0-1-5; the via vertices 2, 3, 4 sit on the one-way ring 1-2-3-4-1, so their candidates (0-1-2-3-4-1-5)
+/// revisit vertex 1 without any two consecutive edges doubling back
+fn one_way_ring() -> World {
+    World::new(6, vec![(0, 1), (1, 5), (1, 2), (2, 3), (3, 4), (4, 1)], vec![5.0, 5.0, 1.0, 1.0, 1.25, 1.0])
+}
+
 fn boundary_cases() -> Vec<(String, World, KCase)> {
     let mut out: Vec<(String, World, KCase)> = vec![];
+    for k in 2..=3 {
+        out.push((format!("sv_one_way_ring_k{}", k), one_way_ring(), base_case(KAlg::SingleVia, k, 0, 5)));
+    }
     let d = diamond();
     // Yen k = 1 is checked normally, on 1-, 2- and 3-edge shortest paths
     out.push(("yen_k1_one_edge".into(), d.clone(), base_case(KAlg::Yens, 1, 0, 1)));
